@@ -89,7 +89,16 @@ class Seq:
             lab = list(base)
             if r.random() < 0.3:
                 lab = [b + " per month" for b in base]
-        return self.Food(vals[0], vals[1], vals[2], lab[0], lab[1], lab[2])
+        f = self.Food(vals[0], vals[1], vals[2], lab[0], lab[1], lab[2])
+        if series and r.random() < 0.3:
+            # construction takes the numbers, not the caller's storage: an in-place write to the quantity stays in it
+            keep = [v.copy() for v in vals]
+            f.set_to_zero_after_month(r.randrange(n))
+            self.ops["write_to_result:constructed"] += 1
+            if not all(np.array_equal(v, k) for v, k in zip(vals, keep)):
+                self.bad("write_to_result_changes_operand", "construction: set_to_zero_after_month on the new quantity changed the caller's array", op="new", how="constructed")
+            f = self.Food(vals[0], vals[1], vals[2], lab[0], lab[1], lab[2])
+        return f
 
     def check_result(self, op, res, want_labels, want_series, operands, snaps, detail=""):
         """res: Food result; want_labels: expected three labels or None to skip"""
@@ -292,6 +301,26 @@ class Seq:
                 if op in ("add", "sub", "neg", "mul_num", "div_num", "sum", "min_all", "max_all", "running", "get_month", "get_first_month", "round", "clip", "abs", "shift", "getitem_slice", "getitem_int"):
                     self.bad("valid_operation_refused", "%s on %s refused: %s" % (op, labels(a), str(err)[:60]), op=op)
                 continue
+            if isinstance(res, Food) and is_series(res) and len(res.kcals) and res is not a and r.random() < 0.5:
+                # a later in-place write to the result (the class's own in-place API) must not reach the operand
+                sa2 = snap(a)
+                how = r.choice(["set_to_zero_after_month", "setitem", "array_write"])
+                i = r.randrange(len(res.kcals))
+                try:
+                    if how == "set_to_zero_after_month":
+                        res.set_to_zero_after_month(i)
+                    elif how == "setitem":
+                        res[i] = Food(7.25, 7.5, 7.75, *[u.replace(" each month", " per month") for u in labels(res)])
+                    else:
+                        res.kcals[i] = res.kcals[i] + 3.5
+                        res.fat[i] = res.fat[i] + 3.5
+                        res.protein[i] = res.protein[i] + 3.5
+                    self.ops["write_to_result:" + how] += 1
+                    if not same(a, sa2):
+                        self.bad("write_to_result_changes_operand", "%s: writing into the result (%s at month %d) changed the operand: kcals %s -> %s" % (
+                            op, how, i, np.ravel(sa2[0])[:6], np.ravel(a.kcals)[:6]), op=op, how=how)
+                except (AssertionError, ValueError):
+                    pass
             if isinstance(res, Food) and r.random() < 0.6:
                 # follow-up use of a derived quantity: conversions read the label list
                 if tuple(strip(strip(labels(res)), " per month")) in CONVERTIBLE:
@@ -373,11 +402,12 @@ def summarize(cases, records, tier):
         "evaluations": int(sum(ops.values()) + comps),
         "distinct_nontrivial": len(seqs) + len([k for k, v in ops.items() if v > 0]),
         "rule": "sequence cases: seeded operation sequences over a pool of scalar/monthly quantities (each sequence distinct by seed; non-trivial = every sequence, they all mix derived and fresh quantities) + number of distinct operation kinds exercised; "
+                "after half of the series results an in-place write (set_to_zero_after_month, item assignment, array write) is made into the result and the operand re-compared; "
                 "predicate cases: scalar vs one-month-series agreement of 14 predicates under the 4 inclusion-flag settings; evaluations = operations checked + predicate comparisons",
         "samples": [{"trace_head": r["obs"]["trace_head"]} for r in seqs[:3]] or [{"note": "none"}],
         "operations_by_kind": dict(ops), "refusals_by_kind": dict(ref), "predicate_comparisons": int(comps), "sequences": len(seqs),
     }
-    for need in ("add", "mul_food", "get_month", "in_units", "in_units_of_derived", "mismatch", "getitem_int", "sum"):
+    for need in ("add", "mul_food", "get_month", "in_units", "in_units_of_derived", "mismatch", "getitem_int", "getitem_slice", "sum", "write_to_result:set_to_zero_after_month", "write_to_result:setitem", "write_to_result:constructed"):
         if ops.get(need, 0) == 0:
             cov["inconclusive_reason"] = "operation never exercised: " + need
     if comps == 0:
